@@ -293,5 +293,117 @@ Definition viol_case (c : c14case) : list N :=
                             (map (fun s => Some (if beq (s_rid s) rid_qp0 || beq (s_rid s) rid_qp1
                                                  then VModel [] else VColl [])) (c_subs c)) (c_segs c)).
 
-Definition mismatches (cs : list c14case) : list (N * N) := run_idx check_case 0 cs.
-Definition violations (cs : list c14case) : list (N * N) := run_idx viol_case 0 cs.
+(* ---- directed handler scenarios: a store.QueryHandler built through the option
+   API (With...) on a real res.Service over a scripted QueryStore (mockstore):
+   invalid configurations, failing callbacks, stores answering with events, the
+   two shipped QueryTransformers.  Compared with Index/QHandler.v. ---- *)
+Inductive dresp := DRErr | DRValue (v : rvalue) | DREvents (evs : list revent).
+
+Record dcase := DC {
+  d_hasstore : bool;                 (* WithQueryStore was called *)
+  d_tkind : N;                       (* handler type: 0 unset, 1 model, 2 collection, 3 some other value *)
+  d_wild : bool;                     (* pattern "d.$p" instead of "d.x" *)
+  d_qrh : N;                         (* QueryRequestHandler: 0 unset, 1 ok, 2 returns an error, 3 empty normalized query *)
+  d_rh : N;                          (* RequestHandler: 0 unset, 1 ok, 2 returns an error *)
+  d_trans : N;                       (* 0 none, 1 IDToRIDCollectionTransformer, 2 IDToRIDModelTransformer *)
+  d_ar : option (list bytes);        (* AffectedResources result, None = not set *)
+  d_known : list bytes;              (* the resource names the service resolves *)
+  d_query : option (list bytes);     (* scripted Query result; None = error (or a value the transformer rejects) *)
+  d_events : option (list revent * bool);   (* scripted Events *)
+  g_setup_panic : bool;              (* Handle / registration panicked *)
+  g_get : option rvalue;             (* get request on "d.x" (with a query for a query resource); None = error *)
+  g_pubs : list pub;                 (* published when the change was triggered *)
+  g_panicked : bool;                 (* the OnQueryChange callback panicked *)
+  g_qresps : list dresp              (* the answer to a query request, per query event, in order *)
+}.
+
+Definition rid_dx : bytes := [100; 46; 120].
+Definition cq_d : bytes := [97; 61; 49].              (* "a=1" *)
+Definition d_ref (id : bytes) : bytes := [100; 46; 105; 46] ++ id.   (* "d.i.<id>" *)
+
+Definition dhandler (c : dcase) : qhandler unit unit :=
+  QH (if d_tkind c =? 1 then TModel else TCollection)
+     (if d_wild c then [100; 46; 36; 112] else rid_dx) (d_wild c)
+     (match d_qrh c with
+      | 0 => None
+      | 1 => Some (fun _ cq => Some (tt, cq))
+      | 2 => Some (fun _ _ => None)
+      | _ => Some (fun _ _ => Some (tt, []))
+      end)
+     (match d_rh c with 0 => None | 1 => Some (fun _ => Some tt) | _ => Some (fun _ => None) end)
+     tt (fun r => memb r (d_known c))
+     (match d_trans c with 0 => TrNone | 1 => TrColl d_ref | _ => TrModel d_ref end)
+     (match d_ar c with Some l => Some (fun _ => l) | None => None end).
+Definition dstore (c : dcase) : qstore unit unit unit := QS (fun _ _ => d_query c) (fun _ _ => d_events c).
+
+Definition dsetup_panics (c : dcase) : bool :=
+  negb (d_hasstore c) || (d_tkind c =? 0) || (d_tkind c =? 3) || setup_panics (dhandler c).
+
+(* events as they appear on the wire: a remove event carries no value; a change is a finite map *)
+Fixpoint ch_get (k : bytes) (ch : list (bytes * option bytes)) : option (option bytes) :=
+  match ch with [] => None | (k', v) :: r => if beq k k' then Some v else ch_get k r end.
+Definition oob_eqb (a b : option (option bytes)) : bool :=
+  match a, b with
+  | Some x, Some y => obeq x y
+  | None, None => true
+  | _, _ => false
+  end.
+Definition ch_eqb (a b : list (bytes * option bytes)) : bool :=
+  forallb (fun kv => oob_eqb (ch_get (fst kv) a) (ch_get (fst kv) b)) (a ++ b).
+Definition ev_eqb (a b : revent) : bool :=
+  match a, b with
+  | EvAdd x i, EvAdd y j => beq x y && (i =? j)%Z
+  | EvRemove _ i, EvRemove _ j => (i =? j)%Z
+  | EvBad false i, EvRemove _ j => (i =? j)%Z        (* the removed value is not sent *)
+  | EvChange x, EvChange y => ch_eqb x y
+  | EvBad p i, EvBad q j => Bool.eqb p q && (i =? j)%Z
+  | _, _ => false
+  end.
+Definition dpub_eqb (a b : pub) : bool :=
+  match a, b with
+  | PReset x, PReset y => beq x y
+  | PQueryEvent x, PQueryEvent y => beq x y
+  | PEvent x e, PEvent y f => beq x y && ev_eqb e f
+  | _, _ => false
+  end.
+Definition dresp_eqb (m : qresp) (g : dresp) : bool :=
+  match m, g with
+  | QRErr, DRErr => true
+  | QRValue _ v, DRValue w => rvalue_eqb v w
+  | QREvents l, DREvents l' => list_eqb ev_eqb l l'
+  | _, _ => false
+  end.
+
+(* field codes: 9 registration panic  10 get response  11 publications / panic of the change callback
+   12 answers to the query requests *)
+Definition check_dcase (c : dcase) : list N :=
+  let h := dhandler c in let qs := dstore c in
+  if dsetup_panics c then (if g_setup_panic c then [] else [9]) else
+  let '(ps, st) := handle_change qs h tt in
+  let qrids := flat_map (fun p => match p with PQueryEvent r => [r] | _ => [] end) ps in
+  (if g_setup_panic c then [9] else []) ++
+  (if orv_eqb (match view_of_get (get_resource qs h tt rid_dx cq_d) with Some (_, v) => Some v | None => None end)
+              (g_get c) then [] else [10]) ++
+  (if list_eqb dpub_eqb ps (g_pubs c) && Bool.eqb (match st with HPanic => true | _ => false end) (g_panicked c)
+   then [] else [11]) ++
+  (if (Nat.eqb (length qrids) (length (g_qresps c))) &&
+      forallb (fun p => dresp_eqb (query_request qs h tt tt (fst p) cq_d) (snd p)) (combine qrids (g_qresps c))
+   then [] else [12]).
+
+(* one case of the generated files *)
+Inductive c14any :=
+| Hist (c : c14case)
+| Dir (d : dcase)
+| BsDir (expected observed : list bool).   (* badgerstore.QueryStore corner paths: what the code does vs. what was seen *)
+
+Definition check_any (a : c14any) : list N :=
+  match a with
+  | Hist c => check_case c
+  | Dir d => check_dcase d
+  | BsDir e o => if list_eqb Bool.eqb e o then [] else [13]
+  end.
+Definition viol_any (a : c14any) : list N :=
+  match a with Hist c => viol_case c | _ => [] end.
+
+Definition mismatches (cs : list c14any) : list (N * N) := run_idx check_any 0 cs.
+Definition violations (cs : list c14any) : list (N * N) := run_idx viol_any 0 cs.
